@@ -23,7 +23,7 @@ ASSUMPTIONS = ['refpgp.sig (independent 5.2.4 implementation, self-tested on 62 
 
 SIG_MUTS = ['type', 'pkalg', 'halg', 'hashed-bit', 'hashed-len', 'sub-delete', 'sub-dup', 'sub-swap', 'sub-move-unhashed',
             'sub-value', 'sub-add', 'sub-unknown-bit', 'mpi-bit', 'mpi-plus1', 'mpi-zero', 'mpi-swap', 'mpi-trunc', 'mpi-high', 'version']
-SUBJ_MUTS = ['doc-bit', 'doc-insert', 'doc-delete', 'doc-swap', 'text-eol', 'uid-char', 'uid-append', 'uid-as-ua', 'key-time', 'key-material',
+SUBJ_MUTS = ['none-with-subject', 'doc-bit', 'doc-insert', 'doc-delete', 'doc-swap', 'text-eol', 'uid-char', 'uid-append', 'uid-as-ua', 'key-time', 'key-material',
              'key-alg', 'key-other', 'subkey-other', 'subkey-swap-roles', 'subkey-material']
 KEY_MUTS = ['key-otherkey-reissue', 'key-bit-reissue', 'key-primary-for-subkey', 'key-encsubkey-reissue']
 ALL_MUTS = SIG_MUTS + SUBJ_MUTS + KEY_MUTS
@@ -31,7 +31,7 @@ _KEYSUBJ = ['key-time', 'key-material', 'key-alg', 'key-other']
 APPLICABLE = {
     'doc': SIG_MUTS + ['doc-bit', 'doc-insert', 'doc-delete', 'doc-swap'] + KEY_MUTS,
     'text': SIG_MUTS + ['doc-bit', 'doc-insert', 'doc-delete', 'doc-swap', 'text-eol', 'text-eol'] + KEY_MUTS,
-    'none': SIG_MUTS + KEY_MUTS,
+    'none': SIG_MUTS + KEY_MUTS + ['none-with-subject', 'none-with-subject'],
     'cert': SIG_MUTS + ['uid-char', 'uid-append', 'uid-as-ua'] + _KEYSUBJ + KEY_MUTS,
     'key': SIG_MUTS + _KEYSUBJ + KEY_MUTS,
     'subkey': SIG_MUTS + _KEYSUBJ + ['subkey-other', 'subkey-swap-roles', 'subkey-material'] + KEY_MUTS,
@@ -197,6 +197,13 @@ def mutate(t, mut, a, b):
         return m, mut, None
 
     if mut in SUBJ_MUTS:
+        if mut == 'none-with-subject':
+            # a standalone / timestamp signature covers no document at all: presented with one, it is not a signature over it
+            if t.kind != 'none':
+                return None
+            m.kind = 'doc'
+            m.doc = [b'I owe Mallory 1000 EUR', b'', b'\x00', b'any other document\n' * 3][a % 4] if a % 4 != 1 else b'x'
+            return m, mut, None
         if mut.startswith('doc-') or mut == 'text-eol':
             if t.kind not in ('doc', 'text'):
                 return None
@@ -368,6 +375,9 @@ def _inside_carrier(t, m, where):
             blob = lit + wire.build_packet(2, m.sig)
             msg = pgpy.PGPMessage.from_blob(blob)
             v = t.pg_verifier().verify(msg)
+        elif t.kind == 'none' and m.kind == 'doc':
+            blob = wire.build_packet(11, grammar.build_literal(0x62, b'', 0, m.doc)) + wire.build_packet(2, m.sig)
+            v = t.pg_verifier().verify(pgpy.PGPMessage.from_blob(blob))
         elif t.label == 'text-cleartext':
             try:
                 text = m.doc.decode('utf-8')
